@@ -795,8 +795,12 @@ def explore_generate_float(cfg, eb=11, sb=53, z3_timeout=60, budget_s=1e9):
     from d42.declaration.types._float_schema import FloatProps
     from d42.generation import Generator, Random, RegexGenerator
     from d42.validation import Validator
-    has_min, has_max, p = cfg
-    if p is not None and not (has_min and has_max):
+    has_value = False
+    if len(cfg) == 4:
+        has_value, has_min, has_max, p = cfg
+    else:
+        has_min, has_max, p = cfg
+    if p is not None and not has_value and not (has_min and has_max):
         return []
     rmod = sys.modules["d42.generation._random"]
     real_random = rmod.random
@@ -811,14 +815,22 @@ def explore_generate_float(cfg, eb=11, sb=53, z3_timeout=60, budget_s=1e9):
                 E.reset()
                 stub = StubRandom()
                 rmod.random = stub
-                mn, mx = z3.FP("mn", F), z3.FP("mx", F)
+                mn, mx, x = z3.FP("mn", F), z3.FP("mx", F), z3.FP("x", F)
                 assume = [z3.Not(z3.fpIsNaN(mn)), z3.Not(z3.fpIsNaN(mx)), z3.Not(z3.fpIsInf(mn)), z3.Not(z3.fpIsInf(mx))]
                 if has_min and has_max:
                     assume.append(z3.fpLEQ(mn, mx))
-                if p is not None:
+                if has_value:     # what the DSL guarantees for a fixed value: not NaN here (F13), min <= value <= max
+                    assume.append(z3.Not(z3.fpIsNaN(x)))
+                    if has_min:
+                        assume.append(z3.fpLEQ(mn, x))
+                    if has_max:
+                        assume.append(z3.fpLEQ(x, mx))
+                if p is not None and not has_value:
                     B = float((1 << (sb - 2)) // 10 ** p)
                     assume += [z3.fpLEQ(z3.FPVal(-B, F), mn), z3.fpLEQ(mx, z3.FPVal(B, F))]
                 reg = {}
+                if has_value:
+                    reg["value"] = SymFP(x)
                 if has_min:
                     reg["min"] = SymFP(mn)
                 if has_max:
@@ -858,17 +870,26 @@ def explore_generate_float(cfg, eb=11, sb=53, z3_timeout=60, budget_s=1e9):
 
 def replay_generate_float(cfg, model):
     from d42 import fake, schema, validate
-    has_min, has_max, p = cfg
+    has_value = False
+    if len(cfg) == 4:
+        has_value, has_min, has_max, p = cfg
+    else:
+        has_min, has_max, p = cfg
     rmod = sys.modules["d42.generation._random"]
     mn, mx = model.get("mn") or 0.0, model.get("mx") or 0.0
     draws = [model[k] for k in sorted(model) if k[0] in "ru" and k[1:].isdigit()]
     s = schema.float
-    if has_min:
-        s = s.min(mn)
-    if has_max:
-        s = s.max(mx)
-    if p is not None:
-        s = s.precision(p)
+    try:
+        if has_value:
+            s = s(model.get("x") or 0.0)
+        if has_min:
+            s = s.min(mn)
+        if has_max:
+            s = s.max(mx)
+        if p is not None:
+            s = s.precision(p)
+    except Exception as ex:
+        return True, "declaration rejected the model's parameters (%s)" % type(ex).__name__
 
     class Fixed:
         i = 0
